@@ -355,7 +355,7 @@ fn main() {
     let mut rec = Recorder::new();
 
     // ---- shape pr-direct: random marks over four windows, waiters, queries, consistent pruning
-    let n_direct = if args.thorough { 30000 } else { 2500 };
+    let n_direct = if args.thorough { 60000 } else { 10000 };
     for _ in 0..n_direct {
         rec.begin_case("pr-direct");
         let max_slot = 15u64;
@@ -404,7 +404,7 @@ fn main() {
     }
 
     // ---- shape pr-perm: every order of a small set of marks; same ready sets, every pair announced exactly once
-    let n_sets = if args.thorough { 60 } else { 8 };
+    let n_sets = if args.thorough { 40 } else { 10 };
     for _ in 0..n_sets {
         let mut marks: Vec<DOp> = Vec::new();
         let base = W * rng.below(2);
@@ -437,7 +437,7 @@ fn main() {
     // ---- shape pool-world: certificates and blocks through a real PoolImpl, finalization-driven pruning
     let rt = tokio::runtime::Builder::new_current_thread().build().expect("runtime");
     let mut factory = CertFactory::new();
-    let n_pool = if args.thorough { 8000 } else { 700 };
+    let n_pool = if args.thorough { 15000 } else { 3000 };
     for i in 0..n_pool {
         let w = gen_world(&mut rng, if i % 5 == 0 { 14 } else { 9 });
         let mut ops = world_pops(&mut rng, &w);
